@@ -160,6 +160,20 @@ abbrev ContMap := List (String × Container)
 /-- `m[k]` (nil = none) -/
 def contMapGet (m : ContMap) (k : String) : Option Container := AMap.get? m k
 
+/-! ## plain Go values on the codec side (functions with the whitelist flag `Plain`): `interface{}` ↦ `Val`,
+    `[]interface{}` ↦ `List Val`, `map[string]interface{}` ↦ the association list; the conversions to `interface{}`
+    are the constructors `.arr` / `.obj`, a leaf's `Value()` is `.sc` -/
+
+/-- `make([]interface{}, n)`: n nil values -/
+def makePlainList (n : Int) : List Val := List.replicate n.toNat Val.null
+/-- `xs[i] = v` on a slice the function made itself: panics unless 0 ≤ i < len(xs) -/
+def plainListSet (xs : List Val) (i : Int) (v : Val) : Go.Res (List Val) :=
+  if 0 ≤ i ∧ i.toNat < xs.length then .ok (xs.set i.toNat v) else .panic
+/-- `map[string]interface{}{}` -/
+def newPlainMap : List (String × Val) := []
+/-- `m[k] = v` -/
+def plainMapSet (m : List (String × Val)) (k : String) (v : Val) : List (String × Val) := AMap.insert m k v
+
 /-! ## builders (functional updates) -/
 
 /-- `&listBuilderImpl{}`; `dom.ListNode()` -/
